@@ -1,0 +1,8 @@
+//go:build verif
+
+// Contracts for package label (comment-only; read by /verif/govc, ignored by the compiler).
+package label
+
+// String only reads the label and builds its result in a local builder.
+//@ func (*label.Label).String
+//@   requires l != nil
